@@ -123,7 +123,7 @@ def op_clause(task):
         env["new_" + name] = getattr(mod, name)
     clause = task["clause"]
     res = {"outcome": outcome}
-    if clause == "raises_only":
+    if clause.endswith("raises_only"):
         if exc is None:
             res["holds"] = True
         else:
